@@ -657,7 +657,14 @@ def wrap_rules(ctx):
                f=f, node=node, key='cong-' + name,
                why='to_180_range shifts by %s on the path [%s], not a multiple of %s'
                    % (sorted({iv.shift for iv in cur}), desc, M))
-        tot = sum(iv.hi - iv.lo for iv in cur) if bounded else INF
+        # returns under tests of the VALUE partition the input between them: the images of all
+        # returning paths that share the same non-value decisions add up
+        if desc in seen:
+            continue
+        seen.add(desc)
+        group = [c_ for d_, c_, _ in W.paths if d_ == desc]
+        gb = all(iv.lo > -INF and iv.hi < INF for c_ in group for iv in c_)
+        tot = sum(iv.hi - iv.lo for c_ in group for iv in c_) if gb else INF
         ctx.ob('WRAP-RANGE', tot == M, None, '%s: image has total length %s' % (name, M), f=f,
                node=node, key='measure-' + name,
                why='image of the reduction has length %s on the path [%s]' % (tot, desc))
